@@ -28,6 +28,7 @@ type Case struct {
 	Graph   string `json:"graph,omitempty"`   // Node graph with shared records (root type Node): chain triangle diamond fan3 two_roots cycle
 	Body    string `json:"body,omitempty"`    // hook body: "" (one Exec through tx) | handle | session | create_update (several statements through one derived handle)
 	Belongs string `json:"belongs,omitempty"` // root type Staff: how the parents' belongs-to Company pointers are shared: distinct shared2 shared_all
+	Subset  string `json:"subset,omitempty"`  // model implementing a subset of the hooks: only:<hook> | allbut:<hook>
 	Prelude string `json:"prelude,omitempty"` // handle derivations made (and abandoned / used once) on the same handle before the operation
 	Preset  bool   `json:"preset,omitempty"`  // graph records carry preset (new) primary keys
 }
@@ -52,6 +53,9 @@ func (c Case) String() string {
 	if c.Belongs != "" {
 		t = "Staff"
 	}
+	if c.Subset != "" {
+		t = "Sub"
+	}
 	s := fmt.Sprintf("%s %s<%s> len=%d kids=%s mode=%s outer=%s", c.Op, c.Shape, t, c.Len, c.Kids, c.Mode, c.Outer)
 	if c.Batch > 0 {
 		s += fmt.Sprintf(" batch=%d", c.Batch)
@@ -68,6 +72,9 @@ func (c Case) String() string {
 	if c.Prelude != "" {
 		s += " prelude=" + c.Prelude
 	}
+	if c.Subset != "" {
+		s += " hooks_implemented=" + c.Subset
+	}
 	return s
 }
 
@@ -83,12 +90,15 @@ func (c Case) rootTable() string {
 	if c.Belongs != "" {
 		return "staffs"
 	}
+	if c.Subset != "" {
+		return "subs"
+	}
 	return "owners"
 }
 
 func (c Case) key() string { return c.String() }
 
-func (c Case) isWrite() bool { return c.Op != "find" && c.Op != "first" }
+func (c Case) isWrite() bool { return c.Op != "find" && c.Op != "first" && c.Op != "find_batches" }
 func (c Case) isUpdate() bool {
 	return c.Op == "update" || c.Op == "updates_struct" || c.Op == "updates_map"
 }
@@ -102,6 +112,13 @@ var (
 )
 
 func (c Case) rootT() reflect.Type {
+	if c.Subset != "" {
+		t, ok := subsetTypes[c.Subset]
+		if !ok {
+			panic("unknown subset " + c.Subset)
+		}
+		return t
+	}
 	if c.PtrKids {
 		return tOwnerP
 	}
@@ -441,7 +458,11 @@ func walkArg(arg interface{}) (recs []record) {
 			addr = v.Addr().Pointer()
 		}
 		id := fmt.Sprintf("[%d]", i)
-		recs = append(recs, record{Ident: id, Table: "owners", Addr: addr, ID: uint(v.FieldByName("ID").Uint()), Name: v.FieldByName("Name").String(), Root: i})
+		table := "owners"
+		if v.FieldByName("SubBase").IsValid() {
+			table = "subs"
+		}
+		recs = append(recs, record{Ident: id, Table: table, Addr: addr, ID: uint(v.FieldByName("ID").Uint()), Name: v.FieldByName("Name").String(), Root: i})
 		child := func(cid, table string, cv reflect.Value) {
 			for cv.Kind() == reflect.Ptr {
 				if cv.IsNil() {
@@ -457,6 +478,9 @@ func walkArg(arg interface{}) (recs []record) {
 				a = cv.Addr().Pointer()
 			}
 			recs = append(recs, record{Ident: cid, Table: table, Addr: a, ID: uint(cv.FieldByName("ID").Uint()), Name: cv.FieldByName("Name").String(), Root: i})
+		}
+		if table != "owners" {
+			return
 		}
 		child(id+".Pet", "pets", v.FieldByName("Pet"))
 		toys := v.FieldByName("Toys")
@@ -487,6 +511,7 @@ type Obs struct {
 	Leaks     string
 	Before    []record   // in-memory records before the operation
 	After     []record   // … and after it
+	FnCalls   []fnCall   // FindInBatches
 	Edges     [][2]*Node // Node graphs: (from, to) after the operation
 	DBPool    gorm.ConnPool
 	OuterPool gorm.ConnPool
@@ -654,6 +679,21 @@ func (w *worker) run(c Case, x *mc.Exec) *Obs {
 			}
 		case "delete":
 			res = db.Delete(arg)
+		case "find_batches":
+			q := db.Where("id <= ?", c.Len)
+			if c.Kids == "both" {
+				q = q.Preload("Pet").Preload("Toys")
+			}
+			res = q.FindInBatches(arg, c.Batch, func(tx *gorm.DB, batch int) error {
+				call := fnCall{Batch: batch, Seq: e.Rec.Len(), Rows: tx.RowsAffected}
+				for _, r := range walkArg(arg) {
+					if r.Table == c.rootTable() {
+						call.IDs = append(call.IDs, r.ID)
+					}
+				}
+				st.fn = append(st.fn, call)
+				return nil
+			})
 		case "find", "first":
 			q := db.Where("id <= ?", c.Len)
 			if c.Kids == "both" {
@@ -693,6 +733,7 @@ func (w *worker) run(c Case, x *mc.Exec) *Obs {
 	}
 	o.Log = st.log
 	o.Errs = st.errs
+	o.FnCalls = st.fn
 	// resolve record identities
 	byAddr := map[uintptr]string{}
 	byIdent := map[string]record{}
@@ -711,7 +752,19 @@ func (w *worker) run(c Case, x *mc.Exec) *Obs {
 	for i := range o.Log {
 		ev := &o.Log[i]
 		ev.PTable = ev.Table
-		if !c.isWrite() && ev.Table != "owners" {
+		if c.Op == "find_batches" {
+			// every batch is loaded into the same destination: identity = primary key
+			ev.Ident = fmt.Sprintf("%s#%d", ev.Table, ev.ID)
+			owner := ev.ID
+			if ev.Table == "toys" {
+				owner = (ev.ID + 1) / 2
+			}
+			if owner > 0 {
+				ev.Batch = int(owner-1) / c.Batch
+			}
+			continue
+		}
+		if !c.isWrite() && ev.Table != c.rootTable() {
 			// preloaded children are loaded into temporary values and copied
 			// into their parents: identity = primary key
 			ev.Ident = fmt.Sprintf("%s#%d", ev.Table, ev.ID)
@@ -777,6 +830,9 @@ func (o *Obs) fingerprint() string {
 	for _, ev := range o.Events {
 		fmt.Fprintf(&sb, "%s c%d %s\n", ev.Kind, ev.Conn, normSQL(ev.SQL))
 	}
+	for _, f := range o.FnCalls {
+		fmt.Fprintf(&sb, "fn batch=%d @%d ids=%v\n", f.Batch, f.Seq, f.IDs)
+	}
 	sb.WriteString(snapString(o.Post))
 	return sb.String()
 }
@@ -822,6 +878,9 @@ func (o *Obs) describe() string {
 			m = "  marker write failed: " + ev.MarkerErr
 		}
 		fmt.Fprintf(&sb, "  @%-3d %-14s %s.%s id=%d pool=%s%s%s\n", ev.Seq, ev.Ident, ev.Table, ev.Hook, ev.ID, poolName(o, ev.Pool), m, f)
+	}
+	for _, f := range o.FnCalls {
+		fmt.Fprintf(&sb, "batch function called: batch=%d @%d rows=%d ids in dest=%v\n", f.Batch, f.Seq, f.Rows, f.IDs)
 	}
 	sb.WriteString("driver log:\n")
 	for _, ev := range o.Events {
